@@ -6,7 +6,8 @@
 // failing), creation failing at template load, detector check, deployment and
 // configuration, kill outcome scripts, DESTROY / after_DESTROY hook tasks at one
 // or several weights (held at a gate while the harness looks at the locks),
-// pending calls; the executor or the agent of a task of the environment lost
+// pending calls; a KILL call that FAILS (the master refuses the first KILL naming a task: the request that
+// issued it must answer an error, the task is back in the roster); the executor or the agent of a task of the environment lost
 // before the destroy (Mesos FAILURE event, with and without the terminal status
 // updates: the task is unlocked but keeps its parent role, the environment's
 // watcher takes it to ERROR); a destroy that arrives WHILE the environment is being
@@ -279,6 +280,98 @@ func matrix() []fw.Case {
 			}
 		}
 	}
+	// a KILL call fails: the master answers the first KILL call naming a task of the class with an error (a transient scheduler-API
+	// fault). doKillTasks puts the task back into the roster and reports "could not kill some tasks"; a DestroyEnvironment whose
+	// clean-up met the failure must answer an error (the environment is gone all the same), a CleanupTasks request too; the
+	// pre-deployment cleanup and the failure tail of a creation only log it. With mesos-go the failed call also drops the
+	// subscription: the KILL calls that follow in the same loop fail at the client (which ones: roster order, a Go map iteration —
+	// read off the snapshot), now and then one still gets through. Shapes: the failing kill first / last / in the middle of 2–4
+	// tasks, two failing kills, with a DESTROY hook, every destroy flavour on the first shape (keepTasks: nothing is killed, the
+	// cleanup that follows meets the failure), from RUNNING, after a lost executor; then a cleanup (the fault is over: it kills
+	// what was put back), a creation needing the same detector, a cleanup.
+	{
+		type shape struct {
+			roles []*sx.Node
+			all   bool
+		}
+		rf := func(cls, host int) *sx.Node { return ownh.T(cls, host, "ok", "ok", "ok", "refuse") }
+		shapes := []shape{
+			{[]*sx.Node{rf(1, 1), ownh.OKT(2, 2)}, true},
+			{[]*sx.Node{ownh.OKT(1, 1), rf(2, 2)}, false},
+			{[]*sx.Node{ownh.OKT(1, 1), rf(2, 2), ownh.OKT(3, 3)}, true},
+			{[]*sx.Node{rf(1, 1), ownh.OKT(2, 2), ownh.OKT(3, 3), ownh.OKT(4, 4)}, false},
+			{[]*sx.Node{ownh.OKT(1, 1), ownh.OKT(2, 2), rf(3, 3), rf(4, 4)}, false},
+			{[]*sx.Node{ownh.OKT(1, 1), rf(2, 4), ownh.H(3, 2, 10, false, "ok", "ok")}, false},
+			{[]*sx.Node{rf(1, 1)}, false},
+		}
+		for i, sh := range shapes {
+			fl := []int{0, 4, 2}
+			if sh.all {
+				fl = []int{0, 1, 2, 3, 4, 5, 6, 7}
+			}
+			for _, f := range fl {
+				force, allow, keep := flags(f)
+				b := &ownh.B{}
+				k := b.Env("ok", []int{1}, sh.roles...)
+				p := probe(b, []int{2})
+				b.Round(ownh.New(k))
+				if allow {
+					b.Round(ownh.Ctl(k, "START"))
+				}
+				if (i+f)%4 == 3 {
+					b.Round(ownh.Ctl(k, "RESET"))
+				}
+				b.Round(ownh.Destroy(k, force, allow, keep)).Round(ownh.Cleanup()).Round(ownh.New(p)).Round(ownh.Cleanup())
+				add("destroy-kill-refused", b)
+			}
+		}
+		// the same after the core has been connected for more than a second: its controller's registration token is unspent, so it
+		// re-subscribes AT ONCE after the failed call — while doKillTasks is still going through its list: the kills after the failed
+		// one fail at the client until the new subscription stands, the ones after that succeed. A failed kill FOLLOWED by successful
+		// ones in one loop (which position the failing kill has: roster order; how many of the later ones fail: a race inside the
+		// core — every outcome is judged, none is expected). 6–10 tasks, the failing class at varying positions, forced / plain destroy.
+		for i := 0; i < 30; i++ {
+			n := []int{6, 8, 10}[i%3]
+			var roles []*sx.Node
+			for j := 0; j < n; j++ {
+				if j == (i/3)%n {
+					roles = append(roles, rf(j+1, j%4+1))
+				} else {
+					roles = append(roles, ownh.OKT(j+1, j%4+1))
+				}
+			}
+			b := &ownh.B{}
+			k := b.Env("ok", []int{1}, roles...)
+			b.Round(ownh.New(k)).Round(ownh.Idle(1100 + 10*(i/15))).Round(ownh.Destroy(k, i%2 == 0, false, false)).Round(ownh.Cleanup())
+			add("destroy-kill-refused-reconnect", b)
+		}
+		// the executor of the refusing task was lost before: it is INACTIVE, dropped without a KILL call — nothing can fail
+		{
+			b := &ownh.B{}
+			k := b.Env("ok", []int{1}, rf(1, 1), ownh.OKT(2, 2))
+			p := probe(b, []int{2})
+			b.Round(ownh.New(k)).Round(ownh.XFail(k, 0, true)).Round(ownh.Destroy(k, true, false, false)).Round(ownh.New(p)).Round(ownh.Cleanup())
+			add("destroy-kill-refused", b)
+		}
+		// next to a live environment on the same hosts: its tasks are locked, no KILL call names them
+		for _, f := range []int{0, 4} {
+			force, allow, keep := flags(f)
+			b := &ownh.B{}
+			live := b.Env("ok", []int{3}, ownh.OKT(81, 1), ownh.OKT(82, 2))
+			k := b.Env("ok", []int{1}, ownh.OKT(1, 1), rf(2, 2), ownh.OKT(3, 1))
+			b.Round(ownh.New(live)).Round(ownh.New(k)).Round(ownh.Destroy(k, force, allow, keep)).Round(ownh.Cleanup()).Round(ownh.Destroy(live, false, false, false))
+			add("destroy-kill-refused", b)
+		}
+		// the KillTasks of a creation's failure tail meets the failure: only logged, the creation answers its own error, the task
+		// falls to the next cleanup
+		for _, cfg := range []string{"stay", "err"} {
+			b := &ownh.B{}
+			k := b.Env("ok", []int{1}, ownh.T(1, 1, "ok", cfg, "ok", "ok"), rf(2, 2), ownh.OKT(3, 3))
+			p := probe(b, []int{1})
+			b.Round(ownh.New(k)).Round(ownh.Cleanup()).Round(ownh.New(p)).Round(ownh.Cleanup())
+			add("create-fails-kill-refused", b)
+		}
+	}
 	// pending calls, two destroys at once, destroy next to another environment's control
 	{
 		b := &ownh.B{}
@@ -451,6 +544,9 @@ func init() {
 		},
 		Assumptions: []string{
 			"the simulated master answers KILL at once (fairness premise: the master eventually reports killed tasks; KillTasks blocks on the acknowledgement)",
+			"which KILL calls failed in a round of a scenario that scripts a refused KILL is read off the snapshot after the round (a task still running, no KILL counted, back in the roster without an owner) and fed to the model as State.refusing; " +
+				"what the model decides from it — the request answers an error, the environment is gone, the task sits in the roster — is compared; scenarios that script no refusal are replayed with every KILL succeeding, as before; " +
+				"a round is issued only while the core's scheduler is subscribed (it re-subscribes by itself after a failed call; ceiling = inconclusive)",
 			"a call that has not returned after 12 s (normal: 0.05–5 s) is recorded as a hang only when the core itself lists the environment inside transition DESTROY, or — if the core no longer answers GetEnvironment(s) either — " +
 				"when its goroutine dump (SIGQUIT; the scenario ends) shows the environment manager's RWMutex deadlocked: a goroutine in sync.RWMutex.RLock inside (*Manager).environment called from TeardownEnvironment and one in sync.RWMutex.Lock in a method of (*Manager), " +
 				"on adjacent semaphore words (snapshot `wedged`, finding teardown_recursive_rlock); otherwise the case is inconclusive",
